@@ -4,5 +4,6 @@ CONSTANTS
   Root = "r"
   Depths = {0, 3}
   MaxImports = 2
+  AliasSet = {""}
   FaultKinds = {"read", "importsyntax", "body", "foreign"}
 CHECK_DEADLOCK FALSE
